@@ -323,6 +323,50 @@ impl W {
     }
 }
 
+impl W {
+    /// Fabricate market state (positions' collateral sums, accrued fees, paid-out funding ...) that
+    /// real position activity would leave behind: `f` runs on a real `RevertibleMarket` over the
+    /// market account (visibility hook) and the result is committed.
+    pub fn edit_market(&self, db: &mut Db, m: &MarketKeys, f: impl FnOnce(&mut gmsol_store::states::market::revertible::market::RevertibleMarket<'_, '_>)) {
+        use gmsol_store::states::market::revertible::Revertible;
+        let acc = db.get(&m.market);
+        let (bump_key, bump) = Pubkey::find_program_address(&[b"__event_authority"], &self.pid);
+        svm::ENV.with(|e| {
+            let mut e = e.borrow_mut();
+            e.stack.clear();
+            e.stack.push(self.pid);
+        });
+        let (_buf, info) = crate::c21::record(&m.market, &self.pid, &acc.data);
+        let (_ebuf, einfo) = crate::c21::record(&bump_key, &self.pid, &[]);
+        // SAFETY: the records outlive the loader and the revertible market
+        let info_ref: &'static AccountInfo<'static> = unsafe { &*(&info as *const AccountInfo<'static>) };
+        let einfo_ref: &'static AccountInfo<'static> = unsafe { &*(&einfo as *const AccountInfo<'static>) };
+        let loader: AccountLoader<Market> = AccountLoader::try_from(info_ref).expect("market loader");
+        let loader_ref: &'static AccountLoader<'static, Market> = unsafe { &*(&loader as *const AccountLoader<'static, Market>) };
+        {
+            let mut rm = gmsol_store::verif::revertible_market(loader_ref, einfo_ref, bump).expect("revertible market");
+            f(&mut rm);
+            rm.commit();
+        }
+        svm::ENV.with(|e| e.borrow_mut().stack.clear());
+        let mut acc = acc;
+        acc.data = info.data.borrow().to_vec();
+        db.set(m.market, acc);
+    }
+
+    pub fn claim_fees(&self, db: &mut Db, m: &MarketKeys, token: Pubkey, by: Pubkey) -> std::result::Result<(), TxError> {
+        let target = self.ensure_ata(db, &by, &token);
+        let accounts = gmsol_store::accounts::ClaimFeesFromMarket { authority: by, store: self.store, market: m.market, token_mint: token, vault: self.vault(&token), target, token_program: spl_token::ID, event_authority: self.event_authority, program: self.pid };
+        process(db, &ix(self.pid, accounts, gmsol_store::instruction::ClaimFeesFromMarket {}), &[by])
+    }
+
+    pub fn market_transfer_in(&self, db: &mut Db, m: &MarketKeys, token: Pubkey, amount: u64, by: Pubkey) -> std::result::Result<(), TxError> {
+        let from = self.ensure_ata(db, &by, &token);
+        let accounts = gmsol_store::accounts::MarketTransferIn { authority: by, store: self.store, from_authority: by, market: m.market, from, vault: self.vault(&token), token_program: spl_token::ID, event_authority: self.event_authority, program: self.pid };
+        process(db, &ix(self.pid, accounts, gmsol_store::instruction::MarketTransferIn { amount }), &[by])
+    }
+}
+
 /// Self-test of the world: one full deposit and withdrawal lifecycle through real instructions.
 pub fn selftest() -> std::result::Result<(), String> {
     let (mut db, w) = build();
